@@ -262,6 +262,7 @@ class Interp:
         self.loop_candidates = loop_candidates  # function(interp, state, frame, head, havocked) -> [terms]
         self.on_call = on_call          # hook(interp, state, callee, args, site) -> None | alternatives
         self.paths = 0
+        self.executed_fns = set()   # paths of every crate function whose body was interpreted (anchors and inlined callees)
         self.unsummarised = set()
         self.summaries_used = set()
         self.obligations = []           # arithmetic obligations: (site, op, discharged)
@@ -942,6 +943,7 @@ class Interp:
         st = State()
         cells = [Cell() for _ in fn.locals]
         fr = Frame(fn, cells)
+        self.executed_fns.add(fn.path)
         st.frames.append(fr)
         for i in range(1, fn.arg_count + 1):
             ty = fn.locals[i]['ty']
@@ -1488,6 +1490,7 @@ class Interp:
                 cells[1].v = cv
         base_pc = set(st.pcset)
         s.frames = [Frame(cfn, cells)]
+        self.executed_fns.add(cfn.path)
         res = self.run(s)
         rets = [o for o in res if o.kind == 'ret']
         if not rets:
@@ -1631,6 +1634,7 @@ class Interp:
     def enter(self, st, fr, callee, args, dest, target, out):
         cells = [Cell() for _ in callee.locals]
         nf = Frame(callee, cells)
+        self.executed_fns.add(callee.path)
         for i, a in enumerate(args):
             if i + 1 < len(cells):
                 cells[i + 1].v = a
